@@ -7,7 +7,7 @@ use super::sendbody::send_body_flow;
 use crate::engine::{guarded, pattern, Report, Tier, Violation};
 use crate::refmodel::chunked::decode_strict;
 
-pub const RULE: &str = "every output length n in 0..=3*10248+64 (thorough: 0..=10*10248+64) plus boundary set {k*10248+d, 16^j+d}: m = calculate_max_input(n) on the real SendBody flow, then the real write(input[..m], out[..n]); chunked and length-delimited bodies; for length-delimited bodies additionally Content-Length {0,1,100,20000} x already-accounted {0,1,half,all} x n up to 70000 (the advertised size is n whatever remains); the same check from non-initial states: after an earlier write of {0 (an end signal, only into buffers too small for the terminator),1,3,17} input bytes into a buffer of 0..=24 bytes in the same SendBody state, and for a chunked body selected by a mixed-case Transfer-Encoding: Chunked next to a Content-Length header, for every body-less method converted with send-body-despite-method without framing header, for an HTTP/1.0 POST without Content-Length, and for a sized body on a flow obtained through a redirect whose original declared a smaller length, n in 0..=300 u 4090..=4110 u 10240..=10270; the same n once more from the initial state with the library's logging at level Trace (payload bytes 0x00..=0xfa pass through the hex dump). distinct = distinct (mode, m>0, chunks emitted, hex digits of last chunk) classes";
+pub const RULE: &str = "every output length n in 0..=3*10248+64 (thorough: 0..=10*10248+64) plus boundary set {k*10248+d, 16^j+d}: m = calculate_max_input(n) on the real SendBody flow, then the real write(input[..m], out[..n]); chunked and length-delimited bodies; for length-delimited bodies additionally Content-Length {0,1,100,20000} x already-accounted {0,1,half,all} x n up to 70000 (the advertised size is n whatever remains); the same check from non-initial states: after an earlier write of {0 (an end signal, only into buffers too small for the terminator),1,3,17} input bytes into a buffer of 0..=24 bytes in the same SendBody state, and for a chunked body selected by a mixed-case Transfer-Encoding: Chunked next to a Content-Length header, for every body-less method converted with send-body-despite-method without framing header, for an HTTP/1.0 POST without Content-Length, for a sized body on a flow obtained through a redirect whose original declared a smaller length, for a chunked body reached through Await100 (100 received / gave up waiting), n in 0..=300 u 4090..=4110 u 10240..=10270; after the head was written in pieces with every fixed buffer size 20..=90 (n in {1,2,3,7,10,100,4104,10248}, both modes); the same n once more from the initial state with the library's logging at level Trace (payload bytes 0x00..=0xfa pass through the hex dump). distinct = distinct (mode, m>0, chunks emitted, hex digits of last chunk) classes";
 
 const CHUNK: usize = 10 * 1024 + 8;
 
@@ -47,6 +47,46 @@ fn one_from(n: usize, chunked: bool, variant: &str, prior: Option<(usize, usize)
             "http10-default" => super::sendbody::send_body_flow_cfg(&crate::driver::ReqCfg::new("POST", "1.0", "http://a.test/p")),
             // sized body on a flow obtained through a redirect (the original declared Content-Length 3)
             "redirected-sized" => super::sendbody::send_body_flow_redirected_len(n as u64 + 5),
+            // an upload announced with Expect: 100-continue: the body state is reached through Await100
+            "expect-gaveup" => super::sendbody::send_body_flow_expect_gaveup(),
+            "expect-100" => {
+                let cfg = crate::driver::ReqCfg::new("POST", "1.1", "http://a.test/p").orig("expect", "100-continue");
+                let mut sr = cfg.build_prepare().expect("prepare").proceed();
+                crate::driver::write_whole_head(&mut sr).expect("head");
+                match crate::driver::AnyFlow::SendRequest(sr).proceed() {
+                    Ok(Some(crate::driver::AnyFlow::Await100(mut a))) => {
+                        let _ = a.try_read_100(b"HTTP/1.1 100 Continue\r\n\r\n");
+                        match a.proceed() {
+                            Ok(ureq_proto::client::flow::Await100Result::SendBody(b)) => b,
+                            _ => panic!("harness: expected SendBody after the 100"),
+                        }
+                    }
+                    _ => panic!("harness: expected Await100"),
+                }
+            }
+            // the head written in pieces with a fixed buffer of k bytes (whatever does not fit stays for the next call)
+            v if v.starts_with("head-buf:") => {
+                let k: usize = v["head-buf:".len()..].parse().unwrap_or(64);
+                let mut cfg = crate::driver::ReqCfg::new("POST", "1.1", "http://a.test/p");
+                if !chunked {
+                    cfg = cfg.orig("content-length", &(n as u64 + 5).to_string());
+                }
+                let mut sr = cfg.build_prepare().expect("prepare").proceed();
+                let mut hb = vec![0u8; k];
+                let mut guard = 0;
+                while !sr.can_proceed() {
+                    guard += 1;
+                    match sr.write(&mut hb) {
+                        Ok(w) if w > 0 && guard < 200 => {}
+                        // a buffer smaller than the longest line cannot take the head at all: nothing to check
+                        _ => return (0, None, "head-buffer-too-small".to_string()),
+                    }
+                }
+                match crate::driver::AnyFlow::SendRequest(sr).proceed() {
+                    Ok(Some(crate::driver::AnyFlow::SendBody(f))) => f,
+                    _ => panic!("harness: expected SendBody"),
+                }
+            }
             "te-mixed-case+cl" => super::sendbody::send_body_flow_cfg(&crate::driver::ReqCfg::new("POST", "1.1", "http://a.test/p").orig("transfer-encoding", "Chunked").orig("content-length", "5")),
             _ => send_body_flow(if chunked { None } else { Some(n as u64 + 5 + prior.map(|p| p.0 as u64).unwrap_or(0)) }),
         };
@@ -222,6 +262,8 @@ pub fn run(tier: Tier) -> Report {
             }
         }
         extra_jobs.push((n, false, "redirected-sized", None));
+        extra_jobs.push((n, true, "expect-gaveup", None));
+        extra_jobs.push((n, true, "expect-100", None));
         extra_jobs.push((n, true, "http10-default", None));
         for i0 in [0usize, 1, 3, 17] {
             for b0 in 0..=24usize {
@@ -233,6 +275,15 @@ pub fn run(tier: Tier) -> Report {
                     extra_jobs.push((n, false, "", Some((i0, b0))));
                 }
             }
+        }
+    }
+    // the head written with every buffer size 20..=90 before the body state is entered (whether the last head
+    // bytes went out together with a header line or on their own must not matter to the first body write)
+    for k in 20..=90usize {
+        let v: &'static str = Box::leak(format!("head-buf:{}", k).into_boxed_str());
+        for n in [1usize, 2, 3, 7, 10, 100, 4104, 10248] {
+            extra_jobs.push((n, true, v, None));
+            extra_jobs.push((n, false, v, None));
         }
     }
     let res: Vec<(usize, bool, &'static str, Option<(usize, usize)>, Option<(String, String)>)> = extra_jobs
